@@ -353,6 +353,11 @@ class Run:
         kw = dict(kw)
         e = args[0] if args else kw.pop("expr", None)
         tg = args[1] if len(args) > 1 else kw.pop("target_idx", None)
+        plain = (isinstance(e, T) and not has_cont(e)) or not isinstance(e, (T, Obj))
+        if not plain:
+            # a container is neither an Add nor a Mul: the library function hands it back untouched
+            sx.effects.append(T("evd", False, "container"))
+            return e
         v, _ = self.w.unwrap(e)
         if tg is None:
             prot, shown = None, None
@@ -365,7 +370,7 @@ class Run:
             shown = tuple(sorted(prot))
         else:
             prot, shown = set(), "?" + show(sx_freeze(tg))
-        sx.effects.append(T("evd", isinstance(e, T) and not has_cont(e) or not isinstance(e, (T, Obj)), repr(shown)))
+        sx.effects.append(T("evd", True, repr(shown)))
         res = model_evaluate_deltas(monomials(v), prot)
         return t_add(*[t_mul(_num(c), *[t_pow(b, x) for b, x in sorted(d.items(), key=lambda y: repr(y[0]))]) for c, d in res]) \
             if res else 0
@@ -431,9 +436,12 @@ class Scenario:
 
     def build(self, w):
         terms = [w.term_rec(c, facs, self.akey) for c, facs in self.terms]
+        r = w.expr_rec(terms, self.akey)
         if self.as_term:
-            return terms[0]
-        return w.expr_rec(terms, self.akey)
+            # a container that is no Expr but offers everything the function reads from one
+            r.__dict__["cls"] = TERM
+            r.attrs.update(objects=terms[0].attrs["objects"])
+        return r
 
 
 def dict_of(facs):
@@ -656,6 +664,8 @@ SCENARIOS = [
     Scenario("diag", "R20a", "diagonal of a transformed matrix", "U:ji U:ki X:jk", target="i", changed=False),
     Scenario("mixed", "R20a", "common index in different positions", "U:ki U:jk", changed=False),
     Scenario("mixed-rem", "R20a", "common index in different positions", "U:ik U:kj X:ij", changed=False),
+    Scenario("later-pair", "R20a", "the first pair of unitary tensors shares nothing", "U:mi U:kj U:kl", changed=True),
+    Scenario("later-pair-2", "R20a", "the first pairs are blocked, a later one is not", "U:mi U:mj U:mk U:ln U:la", changed=True),
     Scenario("both", "R20a", "one pair per position", "U:ki U:kj U:ml U:nl", changed=True),
     Scenario("not-2d", "R20a", "three-index tensor of that name", "U:kij U:kl", raises="NotImplementedError"),
     Scenario("not-2d-single", "R20a", "one-index tensor of that name", "U:k U:ki U:kj", raises="NotImplementedError"),
@@ -672,7 +682,7 @@ SCENARIOS = [
     Scenario("terms-first-only", "R20b", "only the last term simplifies", ["X:ij Y:ij", "5 U:ik U:jk Y:ij"], changed=True),
     Scenario("assumptions", "R20b", "non-default assumptions", "U:ki U:kj X:im Y:jn", target="ijmn", real=True,
              sym_tensors=("X",), antisym_tensors=("Y",), changed=True),
-    Scenario("not-expr", "R20b", "a Term instead of an Expr", "U:ki U:kj", as_term=True, raises="TypeError"),
+    Scenario("not-expr", "R20b", "a container that is not an Expr", "U:ki U:kj", as_term=True, raises="TypeError"),
     # ---- R20c: bookkeeping
     Scenario("exp-mult", "R20c", "unitary object with exponent 2 next to a partner", "U:ki^2 U:kj", target="ij", changed=False),
     Scenario("denominator", "R20c", "common index in a denominator", "U:ki U:kj X:k^-1", changed=False),
@@ -704,7 +714,7 @@ def scenarios(ctx, rule):
         except _OutOfDomain as e:
             raise AnalysisError(f"C20 scenario {scn.sid} is outside the decided domain: {e}")
         n += 1
-    ctx.floor(rule, "model expressions evaluated", n, {"R20a": 18, "R20b": 12, "R20c": 15}[rule])
+    ctx.floor(rule, "model expressions evaluated", n, {"R20a": 20, "R20b": 12, "R20c": 15}[rule])
 
 
 def r20c_request(ctx):
